@@ -406,7 +406,7 @@ pub fn scenario(ctx: &Ctx, bin: &Path, dir: &Path, mut rng: Rng, explicit_persis
     }
     out.violation = Some((
         "C12 (real processes): promoted follower does not serve the leader's state with grave goods and last wills applied".to_owned(),
-        json!({"expected_vs_promoted": strict, "leader_registrations_at_kill": l_regs, "follower_registrations_at_kill": f_regs,
+        json!({"expected_vs_promoted": strict, "diff_under_each_alternative": super::c12::all_diffs(&l_user, &l_regs, &observed), "leader_registrations_at_kill": l_regs, "follower_registrations_at_kill": f_regs,
                "follower_values_equalled_leader": values_equal, "explicit_persistence": explicit_persistence, "script": out.script}),
     ));
     Ok(out)
